@@ -1,21 +1,80 @@
-(* C16 driver: usage  model [old]
-   stdin : one case per line = the file's bytes in hex ("-" = empty)
-   stdout: per case the canonical dump of the tree returned by the extracted parser
-           (same format as harness/C16/harness.cpp), or THROW / OOB / OUTOFFUEL.
-   "old" selects the reader as found (parseString without the terminator test). *)
+(* C16 driver: usage  model [old | render]
+   default / "old":
+     stdin : one case per line = the file's bytes in hex ("-" = empty)
+     stdout: per case the canonical dump of the tree returned by the extracted parser
+             (same format as harness/C16/harness.cpp), or THROW / OOB / OUTOFFUEL.
+     "old" selects the reader as found (parseString without the terminator test).
+   "render":
+     stdin : one laid-out document (Render.ldoc) per line, as blank-separated tokens, every
+             string in hex ("-" = empty):
+               doc    := header ws items
+               header := H0 | H1 | H2 w ws props
+               props  := <n> (name w1 w2 <D|S> val w3){n}
+               items  := ( c body ws | n node ws | t text trail )* .
+               node   := S name ws0 props | O name ws0 props wbody items
+     stdout: per document  <WF|NOTWF> <hex of render_doc d> <dump of doc_of d>
+             all three computed by the extracted Coq functions (Render.render_case), so the
+             files the check feeds to readXML are exactly the premise of theorem parse_render. *)
 let hexs (l : n list) : string = hex_of_string (string_of_str l)
 let rec dump (Node (name, props, content, children)) : string =
   "(" ^ hexs name ^ " {" ^ String.concat " " (List.map (fun (k, v) -> hexs k ^ "=" ^ hexs v) props)
   ^ "} " ^ hexs content ^ " [" ^ String.concat " " (List.map dump children) ^ "])"
+
+exception Bad of string
+let parse_ldoc (line : string) : ldoc =
+  let toks = Array.of_list (List.filter (fun t -> t <> "") (String.split_on_char ' ' line)) in
+  let pos = ref 0 in
+  let next () = if !pos >= Array.length toks then raise (Bad "eof") else (let t = toks.(!pos) in incr pos; t) in
+  let s () = str_of_string (string_of_hex (next ())) in
+  let props () =
+    let k = int_of_string (next ()) in
+    List.init k (fun _ ->
+      let name = s () in let w1 = s () in let w2 = s () in
+      let dq = (match next () with "D" -> true | "S" -> false | t -> raise (Bad ("quote " ^ t))) in
+      let v = s () in let w3 = s () in
+      { lp_name = name; lp_w1 = w1; lp_w2 = w2; lp_dq = dq; lp_val = v; lp_w3 = w3 }) in
+  let rec items () =
+    match next () with
+    | "." -> INil
+    | "c" -> let b = s () in let w = s () in let r = items () in IComment (b, w, r)
+    | "n" -> let nd = node () in let w = s () in let r = items () in IChild (nd, w, r)
+    | "t" -> let t = s () in let tr = s () in let r = items () in IText (t, tr, r)
+    | t -> raise (Bad ("item " ^ t))
+  and node () =
+    match next () with
+    | "S" -> let name = s () in let ws0 = s () in let ps = props () in LSelf (name, ws0, ps)
+    | "O" -> let name = s () in let ws0 = s () in let ps = props () in let wb = s () in
+             let its = items () in LOpen (name, ws0, ps, wb, its)
+    | t -> raise (Bad ("node " ^ t)) in
+  let header =
+    match next () with
+    | "H0" -> HNone
+    | "H1" -> HBare
+    | "H2" -> let w = (match s () with [c] -> c | _ -> raise (Bad "header white")) in
+              let ws = s () in let ps = props () in HProps (w, ws, ps)
+    | t -> raise (Bad ("header " ^ t)) in
+  let ws = s () in
+  let its = items () in
+  if !pos <> Array.length toks then raise (Bad "trailing tokens");
+  { ld_header = header; ld_ws = ws; ld_items = its }
+
 let () =
-  let old = Array.length Sys.argv > 1 && Sys.argv.(1) = "old" in
+  let mode = if Array.length Sys.argv > 1 then Sys.argv.(1) else "" in
   try while true do
     let line = String.trim (input_line stdin) in
-    let s = str_of_string (string_of_hex line) in
-    let r = if old then parse_old s else parse s in
-    print_endline (match r with
-      | Ok (d, _) -> dump d
-      | Throw -> "THROW"
-      | OOB -> "OOB"
-      | OutOfFuel -> "OUTOFFUEL")
+    if mode = "render" then begin
+      match (try Some (parse_ldoc line) with Bad _ | Failure _ | Invalid_argument _ -> None) with
+      | None -> print_endline "BADCASE"
+      | Some d ->
+        let ((wf, bytes), doc) = render_case d in
+        print_endline ((if wf then "WF " else "NOTWF ") ^ hexs bytes ^ " " ^ dump doc)
+    end else begin
+      let s = str_of_string (string_of_hex line) in
+      let r = if mode = "old" then parse_old s else parse s in
+      print_endline (match r with
+        | Ok (d, _) -> dump d
+        | Throw -> "THROW"
+        | OOB -> "OOB"
+        | OutOfFuel -> "OUTOFFUEL")
+    end
   done with End_of_file -> ()
